@@ -101,8 +101,11 @@ class C03Engine(Engine):
             '(truncate), lost write (delete span/token/line), duplicated write, misdirected write (splice '
             'from another file), reordered write (swap tokens/lines), bit rot (replace a char, change a '
             "literal's kind, insert a stray character), indentation shear, garbage file (<=6 tokens after a "
-            'namespace header), short reads on stdin. Compiled through specs_to_ir or through the real CLI '
-            '(argv or stdin). Distinct = (fault kind, token class at the fault site, outcome class incl. the '
+            'namespace header), short reads on stdin, or one well-formed but wrong name at a semantic site '
+            '(identifier confusion), a definition written twice, or no fault at all (5%). Compiled through '
+            'specs_to_ir or through the real CLI (argv with paths spelled as a user might, or stdin). Where '
+            'the verdict is beyond doubt it is demanded (surely invalid -> refused, undamaged -> compiles). '
+            'Distinct = (fault kind, token class at the fault site, outcome class incl. the '
             'stone raise site reached); runs whose faults left the text unchanged are trivial.')
     real_components = ['stone lexer, parser, IR generator (specs_to_ir)', 'stone.cli.main (file and stdin '
                        'reading, error printing, exit status)', 'python_types backend when compilation succeeds']
